@@ -18,9 +18,9 @@ theorem ceilSec_bounds (t : Nat) : t ≤ ceilSec t ∧ ceilSec t < t + 1000 ∧ 
 
 /-- The deadline of the total timeout (`TimeoutHandle.start`) is `now + total` below the
 threshold and the next whole second at or after `now + total` from the threshold on. -/
-theorem totalDeadline_spec (now d : Nat) :
-    (d < thr → totalDeadline now d = now + d) ∧
-    (d ≥ thr → now + d ≤ totalDeadline now d ∧ totalDeadline now d < now + d + 1000 ∧ totalDeadline now d % 1000 = 0) := by
+theorem totalDeadline_spec (thr now d : Nat) :
+    (d < thr → totalDeadline thr now d = now + d) ∧
+    (d ≥ thr → now + d ≤ totalDeadline thr now d ∧ totalDeadline thr now d < now + d + 1000 ∧ totalDeadline thr now d % 1000 = 0) := by
   unfold totalDeadline
   have := ceilSec_bounds (now + d)
   constructor
@@ -30,9 +30,9 @@ theorem totalDeadline_spec (now d : Nat) :
 /-- The deadline of `ceil_timeout` (connect, sock_connect) is never later than the documented
 rule (`totalDeadline`: rounding from the threshold on) and never earlier than `now + delay`;
 it differs only at `delay = threshold` exactly, where the code does not round. -/
-theorem ctxDeadline_spec (now d : Nat) :
-    now + d ≤ ctxDeadline now d ∧ ctxDeadline now d ≤ totalDeadline now d ∧
-    (d ≠ thr → ctxDeadline now d = totalDeadline now d) := by
+theorem ctxDeadline_spec (thr now d : Nat) :
+    now + d ≤ ctxDeadline thr now d ∧ ctxDeadline thr now d ≤ totalDeadline thr now d ∧
+    (d ≠ thr → ctxDeadline thr now d = totalDeadline thr now d) := by
   unfold ctxDeadline totalDeadline
   have := ceilSec_bounds (now + d)
   refine ⟨?_, ?_, ?_⟩
@@ -155,10 +155,10 @@ with exactly the documented deadline `totalDeadline now total'` (where `total'` 
 total of `ClientTimeout`), whatever phase the request stalls in first (pool wait, DNS, connect). -/
 theorem total_bound_partial (cfg : Cfg) (s : St) (T : Nat) (hp : s.pc = .idle)
     (hT : cfg.effTotal = some T) (h0 : T ≠ 0) :
-    (startR cfg s).totalT = some (totalDeadline s.now T, s.seq) := by
+    (startR cfg s).totalT = some (totalDeadline cfg.thr s.now T, s.seq) := by
   unfold startR
   simp only [hp, ne_eq, not_true_eq_false, ↓reduceIte]
-  have ha : (armStart cfg s).totalT = some (totalDeadline s.now T, s.seq) := by
+  have ha : (armStart cfg s).totalT = some (totalDeadline cfg.thr s.now T, s.seq) := by
     unfold armStart; simp only [hT, h0, ↓reduceIte]
     repeat (first | rfl | split)
   split
@@ -169,10 +169,10 @@ theorem total_bound_partial (cfg : Cfg) (s : St) (T : Nat) (hp : s.pc = .idle)
 `ctxDeadline now connect` before the pool wait, so pool wait + DNS + connect share one deadline. -/
 theorem connect_bound_partial (cfg : Cfg) (s : St) (c : Nat) (hp : s.pc = .idle)
     (hc : cfg.connect = some c) (h0 : c ≠ 0) :
-    ∃ q, (startR cfg s).connT = some (ctxDeadline s.now c, q) := by
+    ∃ q, (startR cfg s).connT = some (ctxDeadline cfg.thr s.now c, q) := by
   unfold startR
   simp only [hp, ne_eq, not_true_eq_false, ↓reduceIte]
-  have ha : ∃ q, (armStart cfg s).connT = some (ctxDeadline s.now c, q) := by
+  have ha : ∃ q, (armStart cfg s).connT = some (ctxDeadline cfg.thr s.now c, q) := by
     unfold armStart; simp only [hc, h0, ↓reduceIte]
     split
     · split <;> exact ⟨_, rfl⟩
@@ -185,7 +185,7 @@ theorem connect_bound_partial (cfg : Cfg) (s : St) (c : Nat) (hp : s.pc = .idle)
 `ctxDeadline now sock_connect`; the request-level bound is therefore `naddr` times the
 configured value (see the finding reported with this property). -/
 theorem sock_connect_bound_partial (cfg : Cfg) (s : St) (c : Nat) (hc : cfg.sockConnect = some c) (h0 : c ≠ 0) :
-    (attemptConn cfg s).sockT = some (ctxDeadline s.now c, s.seq) ∧ (attemptConn cfg s).pc = .connecting := by
+    (attemptConn cfg s).sockT = some (ctxDeadline cfg.thr s.now c, s.seq) ∧ (attemptConn cfg s).pc = .connecting := by
   unfold attemptConn; simp [hc, h0]
 
 /-- **sock_read_bound (partial: the armed deadline and its exception).** Every reschedule arms the
